@@ -92,15 +92,42 @@ Definition deepcopy (fl : flags) (w : world) (a : addr) : option world :=
     end
   end.
 
+(* ---- the hypothesis of the reachable-world theorems, as a boolean checked on every parsed tree ---- *)
+Definition mem_path (p : path) (l : list path) : bool :=
+  existsb (fun q => if path_dec p q then true else false) l.
+Fixpoint wf_restb (ti : nat) (p : path) (seen : list path) (rest : list (path * info)) : bool :=
+  match rest with
+  | [] => true
+  | (r, i) :: rest' =>
+      negb (match r with [] => true | _ => false end) && no_hook i &&
+      (if oaddr_dec (par i) (Some (ti, p ++ removelast r)) then true else false) &&
+      mem_path (removelast r) seen && wf_restb ti p (r :: seen) rest'
+  end.
+Fixpoint nodupb (l : list path) : bool :=
+  match l with [] => true | x :: l' => negb (mem_path x l') && nodupb l' end.
+Definition wf_treeb (ti : nat) (t : tree) : bool :=
+  match t with
+  | ([], i0) :: rest =>
+      no_hook i0 && (match par i0 with None => true | Some pa => Nat.ltb (fst pa) ti end) &&
+      wf_restb ti [] [[]] rest && nodupb (map fst t)
+  | _ => false
+  end.
+
 (* ---- the edit API ---------------------------------------------------------------- *)
 Inductive op :=
 | DeepCopy (a : addr)                       (* copy.deepcopy(tree) / find_class(copy=True) *)
 | AddClass (a : addr) (k : key) (d : cdata) (* ast.py:810 add_class of a new class *)
 | RmClass (a : addr) (k : key)              (* ast.py:819 remove_class *)
-| SetData (a : addr) (d : cdata).           (* add/remove_symbol, add/remove_equation: new content *)
+| SetData (a : addr) (d : cdata)            (* add/remove_symbol, add/remove_equation: new content *)
+| AddTree (a : addr) (k : key) (ents : list (path * cdata)).
+    (* ast.py:810 add_class of a class OBTAINED ELSEWHERE (find_class(copy=True) / copy.deepcopy of a class
+       of another tree or package) together with the classes it owns: ents = (path relative to the added
+       class, content), root first; a same-named class of the target is replaced.  The content is a
+       parameter of the op: the effect is confined to the target tree. *)
 
 Definition op_tree (o : op) : nat :=
-  match o with DeepCopy a => fst a | AddClass a _ _ => fst a | RmClass a _ => fst a | SetData a _ => fst a end.
+  match o with DeepCopy a => fst a | AddClass a _ _ => fst a | RmClass a _ => fst a | SetData a _ => fst a
+  | AddTree a _ _ => fst a end.
 
 Definition is_some {A} (o : option A) : bool := match o with Some _ => true | None => false end.
 
@@ -118,6 +145,15 @@ Definition apply_op (fl : flags) (w : world) (o : op) : world :=
   | SetData a d =>
       upd_tree w (fst a) (fun t => map (fun e => if path_dec (fst e) (snd a)
                                                 then (fst e, Info d (par (snd e)) (hk (snd e))) else e) t)
+  | AddTree a k ents =>
+      (* self.classes[c.name] = c (replacing); c.parent = self; the owned classes come along *)
+      if is_some (get w a) then
+        upd_tree w (fst a) (fun t =>
+          let t' := filter (fun e => negb (is_some (strip (snd a ++ [k]) (fst e)))) t ++
+                    map (fun e => (snd a ++ k :: fst e,
+                                   Info (snd e) (Some (fst a, removelast (snd a ++ k :: fst e))) None)) ents in
+          if wf_treeb (fst a) t' then t' else t)       (* ents must be a class tree: root first, owners first *)
+      else w
   end.
 
 Definition run (fl : flags) (ops : list op) (w : world) : world := fold_left (apply_op fl) ops w.
@@ -148,27 +184,6 @@ Fixpoint trees_match (w : world) (ts : list tree) (o : list (list (path * info))
   | _, _ => false
   end.
 Definition world_matches (w : world) (o : list (list (path * info))) : bool := trees_match w w o.
-
-(* ---- the hypothesis of the reachable-world theorems, as a boolean checked on every parsed tree ---- *)
-Definition mem_path (p : path) (l : list path) : bool :=
-  existsb (fun q => if path_dec p q then true else false) l.
-Fixpoint wf_restb (ti : nat) (p : path) (seen : list path) (rest : list (path * info)) : bool :=
-  match rest with
-  | [] => true
-  | (r, i) :: rest' =>
-      negb (match r with [] => true | _ => false end) && no_hook i &&
-      (if oaddr_dec (par i) (Some (ti, p ++ removelast r)) then true else false) &&
-      mem_path (removelast r) seen && wf_restb ti p (r :: seen) rest'
-  end.
-Fixpoint nodupb (l : list path) : bool :=
-  match l with [] => true | x :: l' => negb (mem_path x l') && nodupb l' end.
-Definition wf_treeb (ti : nat) (t : tree) : bool :=
-  match t with
-  | ([], i0) :: rest =>
-      no_hook i0 && (match par i0 with None => true | Some pa => Nat.ltb (fst pa) ti end) &&
-      wf_restb ti [] [[]] rest && nodupb (map fst t)
-  | _ => false
-  end.
 
 Fixpoint check_trace (fl : flags) (w : world) (ops : list op) (obs : list (list (list (path * info)))) : bool :=
   match ops, obs with
